@@ -20,7 +20,8 @@ fn ev(hash: u16, stream: &str, name: &str, payload: Vec<u8>) -> NewEvent {
         stream_id: StreamId::new(stream).unwrap(),
         stream_version: ExpectedVersion::Any,
         event_name: name.to_string(),
-        timestamp: 1_700_000_000_000_000_000,
+        // pseudo-random, so that the fixed-size event header is as incompressible as the payload
+        timestamp: payload.iter().fold(0x9e37_79b9_7f4a_7c15u64, |a, b| (a ^ *b as u64).wrapping_mul(0x100_0000_01b3)) >> 2,
         metadata: vec![],
         payload,
     }
@@ -37,7 +38,7 @@ async fn main() {
     let mut bad = None;
     // the stored size of the big event is unknown up front (it depends on zstd): try every slack 0..40 between the
     // estimate and the free space; the property demands success for all of them
-    'o: for slack in (0..(nev * 20 + 90)).step_by(if nev == 1 { 3 } else { 11 }) {
+    'o: for slack in (0..(nev * 20 + 90)).step_by(if plen < 200 { 1 } else if nev == 1 { 3 } else { 11 }) {
         let dir = tempfile::tempdir().unwrap();
         let db = DatabaseBuilder::new()
             .segment_size_bytes(segment_size)
@@ -55,11 +56,22 @@ async fn main() {
         let target_free = est_big + slack;
         assert!(free > target_free);
         let mut k = 0u32;
-        while free > target_free {
-            let need = free - target_free;
-            let base = EVENT_HEADER_SIZE + 1 + 1; // empty payload filler
-            let size = if need >= base + base { (need - base).min(base + 25).max(base) } else { need };
-            if size < base { break; }
+        // every filler record stays below seglog's compression threshold (stored size == raw size, exactly)
+        let base = EVENT_HEADER_SIZE + 1 + 1; // empty payload filler
+        let maxf = base + 25;
+        let mut sizes: Vec<usize> = Vec::new();
+        let mut need = free - target_free;
+        while need > 5 * maxf {
+            sizes.push(maxf);
+            need -= maxf;
+        }
+        if need > 0 {
+            let n = need.div_ceil(maxf);
+            if base * n <= need {
+                sizes.extend((0..n).map(|i| need / n + usize::from(i < need % n)));
+            }
+        }
+        for size in sizes {
             let t = Transaction::new(key, 0, smallvec![ev(hash, "f", "n", vec![7u8; size - base])]).unwrap();
             db.append_events(t).await.unwrap();
             free -= size;
